@@ -202,6 +202,12 @@ func (g *Gen) genXfer(s *Spec, h int64, variant string) (string, bool) {
 		fee := big.NewInt(int64(1 + g.r.Intn(3)))
 		t.Outs[0].Amt = new(big.Int).Sub(t.Outs[0].Amt, fee)
 		t.Outs = append(t.Outs, OutInfo{Addr: "$", Amt: fee})
+		if g.r.Chance(1, 4) && t.Outs[0].Amt.Cmp(big.NewInt(3)) > 0 {
+			// a second output to the fee placeholder (fee + tip): every '$' output is paid to the proposer and taken back on undo
+			tip := big.NewInt(int64(1 + g.r.Intn(2)))
+			t.Outs[0].Amt = new(big.Int).Sub(t.Outs[0].Amt, tip)
+			t.Outs = append(t.Outs, OutInfo{Addr: "$", Amt: tip})
+		}
 	}
 	switch variant {
 	case "amount":
@@ -403,8 +409,10 @@ func (g *Gen) scenario(p *Profile) {
 				g.held = append(g.held[:k], g.held[k+1:]...)
 				g.emit(fmt.Sprintf("dotx %d", ti))
 			}
-		case "mine-auto":
+		case "mine-auto", "mine-auto-stale":
 			// own block carrying a generated (autogen) transaction after the award; PlayForMiner applies it unverified
+			// (-stale: the generated transaction always cites a version that never existed, so the block fails after its
+			// award was applied and is dropped again: no fabricated block stays on the chain)
 			st := e.stateTip()
 			if st != e.ledgerTip() {
 				g.syncState()
@@ -416,7 +424,7 @@ func (g *Gen) scenario(p *Profile) {
 			if kv, ok := cur.KV[key]; ok {
 				ver = fmt.Sprintf("%d.%d", kv.Tx, kv.Off)
 			}
-			if g.r.Chance(1, 2) {
+			if g.r.Chance(1, 2) || act == "mine-auto-stale" {
 				ver = "0.7" // a version that never existed: the generated transaction is stale
 			}
 			ai := len(w.Txs)
